@@ -538,6 +538,23 @@ struct Agg
     std::vector<std::string> fp_dump; // "profile idx fp status class"
 };
 
+// Flavour-specific finishing touches on a freshly generated plan.
+static void
+finalize_plan(Plan& p)
+{
+#ifdef VSIM_FINE
+    // access-level preemption: every cross-thread memory access of the repo's
+    // C code is a potential preemption point; the probability is drawn per run
+    Rng r(mix64(p.seed, 0xacce55));
+    static const double ps[] = { 0.01, 0.05, 0.2, 0.6 };
+    p.sets("flavour", "fine");
+    if (!p.cfg.count("sched.p_access"))
+        p.setd("sched.p_access", ps[r.below(4)]);
+#else
+    (void)p;
+#endif
+}
+
 static uint64_t
 profile_base(uint64_t base, const std::string& property,
              const std::string& profile)
@@ -616,6 +633,7 @@ worker_main(int widx, int nworkers, const CheckSpec& spec, Harness* H,
                           Plan p = H->generate_run(
                             profile_base(base_seed, spec.property, prof.name),
                             i, spec.property, prof.name);
+                          finalize_plan(p);
                           H->execute(p);
                           RunResult rr;
                           end_run(&rr);
@@ -656,6 +674,7 @@ worker_main(int widx, int nworkers, const CheckSpec& spec, Harness* H,
                                 profile_base(base_seed, spec.property,
                                              prof.name),
                                 idx, spec.property, prof.name);
+                              finalize_plan(p);
                               a.samples.push_back(plan_to_text(p));
                           }
                       }
@@ -1033,6 +1052,9 @@ struct Shrinker
 };
 
 // ------------------------------------------------------------- evidence
+static bool g_no_evidence = false;
+static std::string g_summary_path;
+
 static std::string
 jstr(const std::string& s)
 {
@@ -1053,6 +1075,20 @@ write_evidence(const CheckSpec& spec, const std::string& tier, uint64_t seed,
                const Agg& a, double wall, int workers, int reported_violations,
                const std::vector<std::string>& notes)
 {
+    if (g_no_evidence)
+        return;
+    std::string extra;
+    int extra_violations = 0;
+    if (const char* ef = getenv("VSIM_EVIDENCE_EXTRA")) {
+        if (read_file(ef, &extra)) {
+            size_t vp = extra.find("\"violations\":");
+            if (vp != std::string::npos)
+                extra_violations = atoi(extra.c_str() + vp + 13);
+            while (!extra.empty() && (extra.back() == '\n' || extra.back() == ' '))
+                extra.pop_back();
+        }
+    }
+    reported_violations += extra_violations;
     std::string o = "{\n";
     o += " \"property_id\": " + jstr(spec.property) + ",\n";
     o += " \"tier\": " + jstr(tier) + ",\n";
@@ -1140,6 +1176,8 @@ write_evidence(const CheckSpec& spec, const std::string& tier, uint64_t seed,
             warn.push_back(n);
         o += "  \"warnings\": " + jlist(warn) + ",\n";
     }
+    if (!extra.empty())
+        o += "  \"fine_flavour\": " + extra + ",\n";
     o += "  \"components_real\": " + jlist(spec.real_components) + ",\n";
     o += "  \"components_stub\": " + jlist(spec.stub_components) + "\n";
     o += " }\n}\n";
@@ -1215,6 +1253,17 @@ replay_raw(const std::string& path)
         fprintf(stderr, "unknown harness %s\n", p.harness.c_str());
         return 2;
     }
+#ifdef VSIM_FINE
+    if (p.gets("flavour", "asan") != "fine")
+        fprintf(stderr, "note: replaying an asan-flavour file with the fine "
+                        "binary\n");
+#else
+    if (p.gets("flavour", "asan") == "fine") {
+        fprintf(stderr, "this replay file needs the fine flavour: "
+                        "build/fine/vsim\n");
+        return 2;
+    }
+#endif
     H->zygote_init();
     RunOutcome ro = run_plan(H, p);
     printf("RESULT status=%s fp=%016llx class=%s\n", ro.status.c_str(),
@@ -1480,6 +1529,7 @@ check_cmd(const std::string& property, const std::string& tier, uint64_t seed,
             printf("  log: %s\n", l.c_str());
         Plan p = H->generate_run(profile_base(seed, property, v.profile),
                                  v.idx, property, v.profile);
+        finalize_plan(p);
         p.has_events = true;
         p.events = v.sched;
         size_t ops0 = p.ops.size(), ev0 = p.events.size();
@@ -1550,6 +1600,29 @@ check_cmd(const std::string& property, const std::string& tier, uint64_t seed,
     }
     double wall = wall_now() - t0;
     write_evidence(*spec, tier, seed, a, wall, workers, reported, notes);
+    if (!g_summary_path.empty()) {
+        char sb[1024];
+        auto pv = [&](const char* k) -> unsigned long long {
+            auto it = a.probes.find(k);
+            return it == a.probes.end() ? 0ull : (unsigned long long)it->second;
+        };
+        snprintf(sb, sizeof(sb),
+                 "{\"what\": \"same check, same oracles, access-level "
+                 "preemption: repo C sources built with -fsanitize=thread "
+                 "against a private __tsan runtime, every cross-thread memory "
+                 "access is a preemption point with a per-run probability; no "
+                 "ASan\", \"evaluations\": %llu, \"runs_ok\": %llu, "
+                 "\"runs_nontrivial\": %llu, \"distinct_nontrivial\": %zu, "
+                 "\"runs_inconclusive\": %llu, \"violations\": %d, "
+                 "\"cross_thread_accesses\": %llu, \"switches\": %llu, "
+                 "\"scheduling_steps\": %llu, \"wall_s\": %.1f}",
+                 (unsigned long long)a.runs, (unsigned long long)a.ok,
+                 (unsigned long long)a.nontrivial, a.fps.size(),
+                 (unsigned long long)a.inconclusive, reported,
+                 pv("k.cross_thread_accesses"), pv("k.switches"),
+                 (unsigned long long)a.steps, wall);
+        write_file(g_summary_path, sb);
+    }
     printf("%s %s: %llu runs (%llu ok, %llu nontrivial, %zu distinct "
            "nontrivial, %llu inconclusive, %llu known-finding hits) in %.1fs\n",
            property.c_str(), tier.c_str(), (unsigned long long)a.runs,
@@ -1578,6 +1651,7 @@ runone_cmd(const std::string& property, const std::string& profile,
     Plan p =
       H->generate_run(profile_base(seed, property, profile), idx, property,
                       profile);
+    finalize_plan(p);
     if (print_plan)
         printf("%s", plan_to_text(p).c_str());
     RunOutcome ro = run_plan(H, p);
@@ -1672,6 +1746,10 @@ super_main(int argc, char** argv)
                 dump = argv[++i];
             else if (a == "--no-corpus")
                 no_corpus = true;
+            else if (a == "--no-evidence")
+                g_no_evidence = true;
+            else if (a == "--summary" && i + 1 < argc)
+                g_summary_path = argv[++i];
         }
         (void)tier_given;
         if (tier != "quick" && tier != "thorough")
